@@ -4,7 +4,7 @@
 //! Digests of the projected document and the observed natural block orders are logged for
 //! Trace_ParallelLoad.
 use lopdf::Document;
-use lopdf_conform::{guard::guarded, io::*, wire::*};
+use lopdf_conform::{flt, guard::guarded, io::*, wire::*};
 use serde_json::{json, Value};
 
 fn fnv(s: &str) -> String {
@@ -101,6 +101,54 @@ fn main() {
             }
         }
         g = h.max(g + 1);
+    }
+    // filtered loading (Reader::read(Some(f))): pure filters that drop objects by number or mark dictionaries;
+    // every schedule must give the document the rayon-free build gives, and the plain load restricted to
+    // what the filter keeps (ParallelLoad!FilterRestricts)
+    let nflt = arg_u64(&args, "--filtered-files", 0) as usize;
+    for (i, c) in files.iter().enumerate().take(nflt) {
+        let bytes = json_to_bytes(&c["bytes"]);
+        lopdf::verif_hooks::force_completion_order(None);
+        let plain = match guarded(|| Document::load_mem(&bytes)) {
+            Ok(Ok(d)) => d,
+            _ => continue,
+        };
+        for k in 0..flt::NFILTERS {
+            let exp = match flt::expectation(&plain, k) {
+                Some(e) => e,
+                None => continue,
+            };
+            let ghosts: Vec<u32> = exp["ghosts"].as_array().unwrap().iter().map(|x| x.as_u64().unwrap() as u32).collect();
+            let mut put = |sched: Value, r: std::result::Result<lopdf::Result<Document>, String>, out: &mut NdjsonOut| -> Vec<u32> {
+                let obs = lopdf::verif_hooks::observed_completion_order();
+                let (res, hash, lhash, ids) = match r {
+                    Ok(r) => flt::outcome(r, &ghosts),
+                    Err(p) => (format!("panic:{p}"), "-".into(), "-".into(), vec![]),
+                };
+                let mut cs = obs.clone();
+                cs.sort();
+                let mut rec = json!({"file": 200000 + i * 8 + k, "src": i, "kind": "filtered", "filter": k, "sched": sched, "res": res, "hash": hash,
+                                     "lhash": lhash, "ids": ids, "observed": obs, "containers": cs});
+                for (key, v) in exp.as_object().unwrap() {
+                    rec[key] = v.clone();
+                }
+                out.put(&rec);
+                obs
+            };
+            let obs = put(json!("base"), guarded(|| flt::load_filtered(&bytes, k)), &mut out);
+            for (t, pool) in &pools {
+                put(json!({"threads": t}), pool.install(|| guarded(|| flt::load_filtered(&bytes, k))), &mut out);
+            }
+            let n = obs.len();
+            if (2..=3).contains(&n) {
+                for o in orders.iter().filter(|o| o["n"].as_u64() == Some(n as u64)) {
+                    let order: Vec<usize> = o["order"].as_array().unwrap().iter().map(|x| x.as_u64().unwrap() as usize).collect();
+                    lopdf::verif_hooks::force_completion_order(Some(order.clone()));
+                    put(json!({"order": order}), guarded(|| flt::load_filtered(&bytes, k)), &mut out);
+                }
+                lopdf::verif_hooks::force_completion_order(None);
+            }
+        }
     }
     out.finish();
 }
